@@ -48,6 +48,8 @@ struct Tape {
   uint32_t Choice(int stream, uint32_t n) { uint32_t r = Raw(stream); return n ? r % n : 0; }
   bool Coin(int stream, uint32_t num, uint32_t den) { return Choice(stream, den) < num; }
   void Reset() { pos.clear(); rng.clear(); if (!replay) rec.clear(); }
+  size_t Mark(int stream) { return pos[stream]; }
+  void Rewind(int stream, size_t mark) { pos[stream] = mark; }
 };
 
 // ---------------------------------------------------------------- file system
@@ -191,6 +193,7 @@ struct Kernel {
   void AddActor(int64_t delay_ns, std::function<void(Kernel&)> fn);
   void SendSignal(int signo);                 // to the running ninja process
   std::function<void(const Ev&)> on_event;    // live observer of the trace
+  std::function<void()> on_proc_exit;         // the instant the process ended, before orphans go on
 
   // file helpers (absolute or cwd-relative paths), usable by drivers & children
   std::string Abs(const std::string& p) const;
@@ -216,6 +219,7 @@ struct Kernel {
 
 // worker-level initialisation (arena, alt stack, stdio)
 void GlobalInit();
+void ArmWatchdog(int seconds);   // CPU seconds for the current run; 0 disarms
 // printf to the worker's real stdout, safe from anywhere in harness code
 void HPrintf(const char* fmt, ...) __attribute__((format(printf, 1, 2)));
 extern FILE* g_real_stdout;
